@@ -225,7 +225,7 @@ func vRunCase(c *vCase, h func()) (out vOutcome) {
 				case <-stop:
 					return
 				case <-time.After(5 * time.Millisecond):
-					vtime.IdleAdvance(60 * time.Millisecond)
+					vtime.IdleAdvance(150 * time.Millisecond) // well above any pause a loaded machine puts between two harness points
 				}
 			}
 		}()
